@@ -479,6 +479,11 @@ def b_dict(args, kw):
     d = IDict()
     if args:
         src = force(args[0])
+        from . import seq
+        if isinstance(src, seq.ADict) and not kw:
+            return seq.ADict(src.al)
+        if isinstance(src, AList) and not kw:
+            return seq.ADict(src)
         if isinstance(src, IDict):
             d = src.copy()
         else:
